@@ -11,13 +11,19 @@ comes from, for the two `Match` classes textX instantiates:
   `.lower()` on both sides when `ignore_case` is set; the terminal's value is
   the *grammar's* literal `to_match`;
 * `RegExMatch._parse`: `self.regex.match(input, c_pos)`; the terminal's value
-  is the matched input text.  The regex engine itself is a parameter
+  is the matched input text;
+* `KeywordMatch` (textx/lang.py, the `autokwd` form of a keyword-like string
+  literal): matched like a `RegExMatch` (`keyword\b`), but the terminal's
+  value is the *grammar's* literal, as for `StrMatch`.  The regex engine itself is a parameter
   `rx : Nat → Array Char → Nat → Option Nat` (token id, input, position ↦ length
   of `m.group()`); what C20 needs from `re.IGNORECASE` is stated as the
   predicate `RxFoldInv` and checked against `re` on every run.
 
 and the three places of `textx/lang.py` that decide the flags
-(`visit_str_match`, its `autokwd` branch, `visit_re_match`): `compileLit`.
+(`visit_str_match`, its `autokwd` branch, `visit_re_match`): `compileLit`,
+and — because regex objects are compiled through a process-wide cache
+(`re.compile`) — the same construction threaded through an arbitrary history of
+earlier meta-model constructions: `buildMM` / `buildAll`.
 
 `lower : Char → Char` is Python's `str.lower` restricted to characters whose
 lower-casing is a single character independent of context (the generators stay
@@ -40,6 +46,7 @@ def strMatchLen (lower : Char → Char) (lit : List Char) (ic : Bool) (input : A
 inductive Tok
   | str (lit : List Char) (ic : Bool)    -- StrMatch(to_match, ignore_case)
   | re                                    -- RegExMatch: semantics given by `rx`
+  | kw (lit : List Char)                  -- KeywordMatch: matched by `rx`, value = the grammar literal
   | other                                 -- not a Match node (empty row)
 deriving Repr, DecidableEq, Inhabited
 
@@ -52,6 +59,7 @@ def tokRow (lower : Char → Char) (rx : Array Char → Nat → Option Nat) (t :
   match t with
   | .str lit ic => Array.ofFn (n := input.size + 1) fun p => strMatchLen lower lit ic input p.val
   | .re => Array.ofFn (n := input.size + 1) fun p => rx input p.val
+  | .kw _ => Array.ofFn (n := input.size + 1) fun p => rx input p.val
   | .other => #[]
 
 /-- the whole table, indexed like the node table (as `harness/peg.py` builds it) -/
@@ -116,10 +124,16 @@ change): regex token `i` matches the same lengths on case-folded-equal inputs. -
 def RxFoldInv (lower : Char → Char) (rx : Rx) (i : Nat) : Prop :=
   ∀ a b, FoldEq lower a b → ∀ p, rx i a p = rx i b p
 
+/-- the token is matched by a compiled regex object (`RegExMatch`, `KeywordMatch`) -/
+def Tok.isRx : Tok → Bool
+  | .re => true
+  | .kw _ => true
+  | _ => false
+
 /-- no case-sensitive terminal: the hypothesis of `C20_partial` -/
 structure NoCaseSensitiveTerminal (lower : Char → Char) (rx : Rx) (L : Lang) : Prop where
   strs : AllIc L.toks
-  regexes : ∀ (i : Nat), L.toks[i]? = some Tok.re → RxFoldInv lower rx i
+  regexes : ∀ (i : Nat) (t : Tok), L.toks[i]? = some t → t.isRx = true → RxFoldInv lower rx i
 
 /-- all whitespace sets of the language (metamodel `ws`, rule modifiers) are case-neutral -/
 structure WsNeutral (lower : Char → Char) (L : Lang) : Prop where
@@ -135,10 +149,11 @@ def wsNeutralB (tab : List (Char × Char)) (L : Lang) : Bool :=
 
 /-! ## terminal values -/
 
-/-- `Terminal.value`: the grammar literal for `StrMatch`, the matched text for `RegExMatch` -/
+/-- `Terminal.value`: the grammar literal for `StrMatch` and `KeywordMatch`, the matched text for `RegExMatch` -/
 def termValue (toks : Array Tok) (input : Array Char) (node pos len : Nat) : List Char :=
   match toks[node]? with
   | some (.str lit _) => lit
+  | some (.kw lit) => lit
   | _ => slice input pos len
 
 mutual
@@ -174,10 +189,18 @@ inductive Lit
   | re (src : List Char)     -- /regex/
 deriving Repr, DecidableEq
 
-/-- the `Match` object the visitor creates -/
+/-- a compiled regex object (`re.Pattern`): its source and whether it carries `re.IGNORECASE` -/
+structure Compiled where
+  pattern : List Char
+  ic : Bool
+deriving Repr, DecidableEq
+
+/-- the `Match` object the visitor creates; regex-based ones carry the compiled object `self.regex`, which is
+what `_parse` matches with -/
 inductive MatchObj
   | strMatch (toMatch : List Char) (ignoreCase : Bool)
-  | regexMatch (pattern : List Char) (ignoreCase : Bool)
+  | regexMatch (pattern : List Char) (ignoreCase : Bool) (regex : Compiled)
+  | keywordMatch (toMatch pattern : List Char) (ignoreCase : Bool) (regex : Compiled)
 deriving Repr, DecidableEq
 
 /-- `self.keyword_regex.match(to_match)` with `span() == (0, len(to_match))` for `[^\d\W]\w*`:
@@ -186,14 +209,56 @@ def kwdLike (isWord isDigit : Char → Bool) : List Char → Bool
   | [] => false
   | c :: cs => isWord c && !isDigit c && cs.all isWord
 
+/-- Python's `re` cache behind `re.compile(pattern, flags)` (process-wide; survives meta-models): keyed by the
+pattern *and* the flags.  (Eviction only removes entries; every statement below holds for any cache
+satisfying `CacheOk`.) -/
+abbrev ReCache := List ((List Char × Bool) × Compiled)
+
+/-- `RegExMatch.compile`: `flags |= re.IGNORECASE` iff `ignore_case`, then `re.compile(to_match_regex, flags)` -/
+def reCompile (c : ReCache) (pat : List Char) (ic : Bool) : ReCache × Compiled :=
+  match c.lookup (pat, ic) with
+  | some r => (c, r)
+  | none => (((pat, ic), ⟨pat, ic⟩) :: c, ⟨pat, ic⟩)
+
+/-- `visit_str_match` / `visit_re_match` for one literal, in a process whose regex cache is `c` -/
+def compileLitS (isWord isDigit : Char → Bool) (cfg : Cfg) (c : ReCache) : Lit → ReCache × MatchObj
+  | .str s =>
+      if cfg.autokwd && kwdLike isWord isDigit s then
+        ((reCompile c (s ++ ['\\', 'b']) cfg.ignoreCase).1,
+          .keywordMatch s (s ++ ['\\', 'b']) cfg.ignoreCase (reCompile c (s ++ ['\\', 'b']) cfg.ignoreCase).2)
+      else (c, .strMatch s cfg.ignoreCase)
+  | .re src =>
+      ((reCompile c src cfg.ignoreCase).1, .regexMatch src cfg.ignoreCase (reCompile c src cfg.ignoreCase).2)
+
+/-- the same without any history (a fresh process) -/
 def compileLit (isWord isDigit : Char → Bool) (cfg : Cfg) : Lit → MatchObj
   | .str s =>
-      if cfg.autokwd && kwdLike isWord isDigit s then .regexMatch (s ++ ['\\', 'b']) cfg.ignoreCase
+      if cfg.autokwd && kwdLike isWord isDigit s then
+        .keywordMatch s (s ++ ['\\', 'b']) cfg.ignoreCase ⟨s ++ ['\\', 'b'], cfg.ignoreCase⟩
       else .strMatch s cfg.ignoreCase
-  | .re src => .regexMatch src cfg.ignoreCase
+  | .re src => .regexMatch src cfg.ignoreCase ⟨src, cfg.ignoreCase⟩
 
+/-- the flag the object's `_parse` really works with: `StrMatch.ignore_case`, resp. the flags of the compiled
+`self.regex` -/
 def MatchObj.ignoreCase : MatchObj → Bool
   | .strMatch _ ic => ic
-  | .regexMatch _ ic => ic
+  | .regexMatch _ _ r => r.ic
+  | .keywordMatch _ _ _ r => r.ic
+
+/-- constructing one meta-model: all literals of its grammar(s), in order, threading the cache -/
+def buildMM (isWord isDigit : Char → Bool) (c : ReCache) (cfg : Cfg) : List Lit → ReCache × List MatchObj
+  | [] => (c, [])
+  | l :: ls =>
+      let r := compileLitS isWord isDigit cfg c l
+      let rs := buildMM isWord isDigit r.1 cfg ls
+      (rs.1, r.2 :: rs.2)
+
+/-- a history of meta-model constructions in one process -/
+def buildAll (isWord isDigit : Char → Bool) (c : ReCache) : List (Cfg × List Lit) → ReCache
+  | [] => c
+  | (cfg, lits) :: rest => buildAll isWord isDigit (buildMM isWord isDigit c cfg lits).1 rest
+
+/-- every cached object is what `re.compile` yields for its own key -/
+def CacheOk (c : ReCache) : Prop := ∀ k r, (k, r) ∈ c → r = ⟨k.1, k.2⟩
 
 end Peg.Case
